@@ -618,6 +618,113 @@ func runC11(p *Prog, l *Ledger) {
 		}
 	}
 
+	// named constructors that build their limiter through another constructor (NewFifo...WithDefaults ->
+	// NewQueueBlockingLimiterWithDefaults): the orderings that constructor configures, followed down to the config
+	// literal that reaches the queue constructor
+	var orderingsOf func(g *ssa.Function, depth int) map[string]bool
+	orderingsOf = func(g *ssa.Function, depth int) map[string]bool {
+		out := map[string]bool{}
+		if g == nil || g.Blocks == nil || depth > 4 {
+			out["?"] = true
+			return out
+		}
+		allInstrs(g, func(ins ssa.Instruction) {
+			call, ok := ins.(*ssa.Call)
+			if !ok {
+				return
+			}
+			c := p.CallOf(call)
+			if c.Static == nil || !p.InModule(c.Static) {
+				return
+			}
+			if p.Key(c.Static) == ctorName {
+				var cfgArg ssa.Value
+				for _, a := range call.Call.Args {
+					if d := derefNamed(a.Type()); d != nil && types.Identical(d, cfgT) {
+						cfgArg = a
+					}
+				}
+				if k, ok := strip(cfgArg, false).(*ssa.Const); ok && k.Value == nil {
+					out[""] = true
+					return
+				}
+				var cfgAlloc *ssa.Alloc
+				if u, ok := cfgArg.(*ssa.UnOp); ok {
+					cfgAlloc, _ = u.X.(*ssa.Alloc)
+				}
+				if cfgAlloc == nil {
+					out["?"] = true
+					return
+				}
+				EnumPathsPrefix(g, call, 100000, func(pa *Path) bool {
+					ord := ""
+					pa.Each(func(step int, i2 ssa.Instruction) bool {
+						if i2 == ssa.Instruction(call) {
+							return false
+						}
+						if st, ok := i2.(*ssa.Store); ok {
+							if fa, ok := st.Addr.(*ssa.FieldAddr); ok && fa.X == ssa.Value(cfgAlloc) && fa.Field == cfgOrd.Index {
+								if n, ok := constName(pa.Resolve(st.Val, step), ordNames); ok {
+									ord = n
+								} else {
+									ord = "?"
+								}
+							}
+						}
+						return true
+					})
+					out[ord] = true
+					return true
+				})
+				return
+			}
+			if c11ReturnsQueueLimiter(c.Static, backlog) && c.Static != g {
+				for o := range orderingsOf(c.Static, depth+1) {
+					out[o] = true
+				}
+			}
+		})
+		return out
+	}
+	for _, f := range p.Funcs {
+		if !p.InPkg(f, "limiter") || f.Parent() != nil {
+			continue
+		}
+		lower := strings.ToLower(f.Name())
+		named := ""
+		switch {
+		case strings.Contains(lower, "fifo"):
+			named = "FIFO"
+		case strings.Contains(lower, "lifo"):
+			named = "LIFO"
+		}
+		if named == "" {
+			continue
+		}
+		allInstrs(f, func(ins ssa.Instruction) {
+			call, ok := ins.(*ssa.Call)
+			if !ok {
+				return
+			}
+			c := p.CallOf(call)
+			if c.Static == nil || !p.InModule(c.Static) || p.Key(c.Static) == ctorName || !c11ReturnsQueueLimiter(c.Static, backlog) {
+				return
+			}
+			got := orderingsOf(c.Static, 0)
+			good := len(got) > 0
+			var gl []string
+			for g := range got {
+				gl = append(gl, orNone(g))
+				if !(strings.HasSuffix(g, named) || (named == "LIFO" && g == "")) {
+					good = false
+				}
+			}
+			sort.Strings(gl)
+			l.Check(good, "O3", p.Key(f)+"/via:"+p.Key(c.Static), p.At(call), fmt.Sprintf("%s-named constructor builds its limiter through %s, which configures %s", named, p.Key(c.Static), strings.Join(gl, ", ")),
+				fmt.Sprintf("a constructor named %s builds its limiter through %s, which configures %s", named, p.Key(c.Static), strings.Join(gl, ", ")))
+		})
+	}
+
 	// ---- O4: unblock is one critical section
 	var qlim *types.Named
 	for _, nt := range p.Implementers(p.coreIface("Limiter")) {
@@ -774,4 +881,33 @@ func valueDerivesFrom(v ssa.Value, target ssa.Value, pa *Path, depth int) bool {
 		}
 	}
 	return false
+}
+
+// c11ReturnsQueueLimiter: the function returns (a pointer to) a struct that owns the backlog, or one that embeds such a struct.
+func c11ReturnsQueueLimiter(f *ssa.Function, backlog *types.Named) bool {
+	if f.Signature.Results().Len() != 1 {
+		return false
+	}
+	var owns func(t types.Type, depth int) bool
+	owns = func(t types.Type, depth int) bool {
+		d := derefNamed(t)
+		if d == nil || depth > 2 {
+			return false
+		}
+		st, ok := d.Underlying().(*types.Struct)
+		if !ok {
+			return false
+		}
+		for i := 0; i < st.NumFields(); i++ {
+			ft := st.Field(i).Type()
+			if types.Identical(ft, types.NewPointer(backlog)) {
+				return true
+			}
+			if st.Field(i).Embedded() && owns(ft, depth+1) {
+				return true
+			}
+		}
+		return false
+	}
+	return owns(f.Signature.Results().At(0).Type(), 0)
 }
